@@ -254,6 +254,15 @@ def arith_entries():
             for nm, op, f in (("and", "&", lambda x, y: x & y), ("or", "|", lambda x, y: x | y),
                               ("xor", "^", lambda x, y: x ^ y)):
                 def bw(a, b, f=f, bits=bits, t=t):
+                    if t == "u256":
+                        # limb-wise (bit operations do not mix limbs): keeps the query inside
+                        # 128-bit bit-vectors
+                        limbs = []
+                        for k in (0, 1):
+                            x = z3.Int2BV(a[1][k][1], 128)
+                            y = z3.Int2BV(b[1][k][1], 128)
+                            limbs.append(("int", z3.BV2Int(f(x, y), False)))
+                        return [(True, ok(("struct", limbs)))]
                     x = z3.Int2BV(i_(a), bits)
                     y = z3.Int2BV(i_(b), bits)
                     return [(True, ok(out_v(t, z3.BV2Int(f(x, y), False))))]
